@@ -23,17 +23,17 @@ type Item struct {
 
 // Ctx is global to one gvc run: sorts, tags, fresh names.
 type Ctx struct {
-	fset     *token.FileSet
-	fresh    int
-	sortDecl []string          // datatype declarations in dependency order
-	sortSeen map[string]string // type key -> sort name
-	structOf map[string]*types.Struct
-	globDecl []string // uninterpreted functions and axioms, in order of first use
-	globSeen map[string]bool
-	tags     map[string]int // type string -> tag id
-	tagTypes []types.Type
-	epochs   int
-	bv       bool // current function is encoded with bit-vectors (pure int functions only)
+	fset         *token.FileSet
+	fresh        int
+	sortDecl     []string          // datatype declarations in dependency order
+	sortSeen     map[string]string // type key -> sort name
+	structOf     map[string]*types.Struct
+	globDecl     []string // uninterpreted functions and axioms, in order of first use
+	globSeen     map[string]bool
+	tags         map[string]int // type string -> tag id
+	tagTypes     []types.Type
+	epochs       int
+	bv           bool // current function is encoded with bit-vectors (pure int functions only)
 	abstractions map[string]bool
 	trusted      map[string]bool
 	ifaces       map[string]types.Type
@@ -477,15 +477,15 @@ func intBounds(bits int, signed bool) (lo, hi string) {
 
 // State is one symbolic path (possibly a merge of several).
 type State struct {
-	c     *Ctx
-	items []Item
-	env   map[types.Object]Value
-	heaps map[string]string // heap name -> current array term
-	hsort map[string]string // heap name -> sort
-	alloc string            // allocation counter term
-	epoch int               // heap epoch: heaps not in the map are named <heap>!e<epoch>
-	dead  bool
-	quiet bool              // inside a quantifier body: no assumptions or definitions may be added
+	c      *Ctx
+	items  []Item
+	env    map[types.Object]Value
+	heaps  map[string]string // heap name -> current array term
+	hsort  map[string]string // heap name -> sort
+	alloc  string            // allocation counter term
+	epoch  int               // heap epoch: heaps not in the map are named <heap>!e<epoch>
+	dead   bool
+	quiet  bool // inside a quantifier body: no assumptions or definitions may be added
 	defers []deferRec
 }
 
